@@ -12,7 +12,7 @@ import (
 	. "vh/vhlib"
 )
 
-var gens = map[string]GenFn{"RouteSrc": genRouteSrc, "EndpointSrc": genEndpointSrc}
+var gens = map[string]GenFn{"RouteSrc": genRouteSrc, "EndpointSrc": genEndpointSrc, "RouterSrc": genRouterSrc}
 
 // delegatesToBase: does `func (x *recv) FinalizeRequestHeaders(ctx, headers, requestInfo)` run the base implementation?
 //
@@ -283,5 +283,51 @@ func genEndpointSrc(repo string) (string, error) {
 	ok := (inLocalityLoop == 1 && afterLoop == 0) || (inLocalityLoop == 0 && afterLoop == 1)
 	fmt.Fprintf(&b, "Definition endpoints_update_per_locality := %v.\n", inLocalityLoop == 1)
 	fmt.Fprintf(&b, "Definition EndpointSrc_translator_ok := %v.\n", ok)
+	return b.String(), nil
+}
+
+// genRouterSrc (C04): does routersImpl.findVirtualHost fall back to the default virtual host when the Host value gave
+// no index (`if index == -1 { index = ri.defaultVirtualHostIndex }`)?
+func genRouterSrc(repo string) (string, error) {
+	_, f, err := ParseGoFile(repo, "pkg/router/routers_impl.go")
+	if err != nil {
+		return "", err
+	}
+	fd := FindFunc(f, "routersImpl", "findVirtualHost")
+	if fd == nil {
+		return "", fmt.Errorf("findVirtualHost not found")
+	}
+	fallback, returnsNil, lowers := 0, 0, 0
+	for _, st := range fd.Body.List {
+		is, ok := st.(*ast.IfStmt)
+		if !ok {
+			continue
+		}
+		be, ok := is.Cond.(*ast.BinaryExpr)
+		if ok && be.Op == token.EQL && selName(be.X) == "index" {
+			// if index == -1 { ... }
+			for _, b := range is.Body.List {
+				switch x := b.(type) {
+				case *ast.AssignStmt:
+					if len(x.Lhs) == 1 && len(x.Rhs) == 1 && selName(x.Lhs[0]) == "index" && strings.HasSuffix(selName(x.Rhs[0]), ".defaultVirtualHostIndex") && returnsNil == 0 {
+						fallback++
+					}
+				case *ast.ReturnStmt:
+					if len(x.Results) == 1 && selName(x.Results[0]) == "nil" {
+						returnsNil++
+					}
+				}
+			}
+		}
+	}
+	ast.Inspect(fd.Body, func(n ast.Node) bool {
+		if c, ok := n.(*ast.CallExpr); ok && selName(c.Fun) == "strings.ToLower" {
+			lowers++
+		}
+		return true
+	})
+	var b strings.Builder
+	fmt.Fprintf(&b, "Definition host_fallback_default := %v.\n", fallback == 1)
+	fmt.Fprintf(&b, "Definition RouterSrc_translator_ok := %v.\n", fallback <= 1 && returnsNil == 1 && lowers == 1)
 	return b.String(), nil
 }
